@@ -24,7 +24,8 @@ Definition is_exactly (s : src) (steps : list step) (o : obs) : bool :=
 (* kind "prog"     : in = [src, steps, partitions_or_null]; a trailing try_map is observed as rows
                      VSome v (Ok v) / VNone (Err).
    kind "failfast" : in = [src, steps ending in try_map, null], out = collect_fail_fast: the Ok
-                     payloads in order, or ["err","fail_fast"] iff some element fails.
+                     payloads in order, or ["err","fail_fast", x] iff some element fails, x being
+                     the FIRST failing element in order (the harness's error message carries it).
    kind "branch"   : in = [src, prefix, a, b, partitions_or_null]; the handles base = prefix,
                      A = prefix ++ a, B = prefix ++ b are all built first (A before B), then base,
                      B, A are collected in that order; out = [base, B, A].  Each handle must return
@@ -39,13 +40,19 @@ Definition check_C02 (kind : string) (input output : J) : verdict :=
     | _, _ => malformed
     end
   else if String.eqb kind "failfast" then
-    match dec_prog input, dec_obs output with
+    match dec_prog input, dec_ff output with
     | Some (s, steps, MSeq), Some o =>
-        if c02_program MSeq steps && ends_in_try steps then
-          let agree := obs_agree CExact (fail_fast_of (model_outcome MSeq s steps)) o in
-          let prop := obs_agree CExact (fail_fast_of (OOk (denote s steps))) o in
-          V agree prop (reorder_changes s steps) false
-        else malformed
+        match last_step steps with
+        | Some (STryMap f p) =>
+            let pre := but_last steps in
+            if c02_program MSeq steps then
+              (* agree: the model's rows reaching the try_map; prop: the list interpretation's *)
+              V (ff_eqb (ff_expected (model_outcome MSeq s pre) f p) o)
+                (ff_eqb (ff_expected (OOk (denote s pre)) f p) o)
+                (reorder_changes s steps) false
+            else malformed
+        | _ => malformed
+        end
     | _, _ => malformed
     end
   else if String.eqb kind "branch" then
